@@ -11,7 +11,8 @@ RULE = ("icontract post-condition on the real trsbox (box to 2 ulp, ||d|| <= del
         "not mutated), evaluated (a) on synthetic inputs: n in 1..8, |g| over 6 decades with zero components, delta over 8 decades, "
         "H in {2J'J full rank, rank deficient, tiny, zero, indefinite, diagonal}, every bound independently active / 1e-13*delta "
         "from active / within delta / far / infinite, and (b) in situ on every call the solver itself makes during bounded runs. "
-        "Non-trivial = call whose step ended on the trust-region boundary or on at least one bound; distinct by input hash")
+        "Non-trivial = call whose step ended on the trust-region boundary or on at least one bound; distinct by input hash"
+        ' Second session: integer-typed current point in one synthetic call in eleven.')
 ASSUMPTIONS = ["model-value comparisons carry the rounding slack eps_x*(|g|_1+|H|_1*max(|d|,eps_x)), eps_x = 8 eps max(|xopt|,|d|): at "
                "converged iterates the step is quantised to ulp(xopt)",
                "2 ulp allowance on the box: the step is returned as a difference xnew - xopt",
